@@ -225,6 +225,62 @@ Theorem C17_export_import_example :
 Proof. exact ex_export_line. Qed.
 Print Assumptions C17_export_import_example.
 
+(** Whole files: UserDictManager::Export of a well-formed dictionary whose keys survive the
+    table format (code = tidy core + one blank, text not starting with '#'), then
+    UserDictManager::Import of that file into any user dictionary.  The import returns the
+    number of non-deleted entries; the importer's metadata (tick included) is untouched;
+    every non-deleted entry arrives under the import rule and keeps the importer's own entry
+    tick (0 for a new entry); deleted entries are not exported; the "# ..." description and
+    the "#@" metadata lines of the file change nothing; all other entries are untouched. *)
+Theorem C17_export_import_file : forall O, dee_print_ok O ->
+  forall ver uid d d0,
+  wf_db d -> forallb wf_export_rec (data d) = true -> is_user_db d = true ->
+  is_user_db (open_rw ver uid dict_name d0) = true ->
+  exists f n, um_export O d = Some (f, n) /\
+    let res := um_import O ver uid dict_name f d0 in
+    snd res = Some (length (filter (nonneg O) (data d))) /\
+    meta (fst res) = meta (open_rw ver uid dict_name d0) /\
+    forall k, match find k (data d) with
+              | Some v =>
+                  if (commits (unpack O v) <? 0)%Z then find k (data (fst res)) = find k (data d0)
+                  else exists s, find k (data (fst res)) = Some s
+                         /\ commits (unpack O s) = imported_commits (our_commits O d0 k) (commits (unpack O v))
+                         /\ tick (unpack O s) = match find k (data d0) with Some s0 => tick (unpack O s0) | None => 0%N end
+              | None => find k (data (fst res)) = find k (data d0)
+              end.
+Proof. intros O HO ver. exact (export_import_file O HO ver). Qed.
+Print Assumptions C17_export_import_file.
+
+(** ... and into an empty dictionary: exactly the non-deleted entries, each with its key
+    and commit count (tick 0). *)
+Theorem C17_export_import_into_empty : forall O, dee_print_ok O ->
+  forall ver uid d d0,
+  wf_db d -> forallb wf_export_rec (data d) = true -> is_user_db d = true ->
+  is_user_db (open_rw ver uid dict_name d0) = true -> data d0 = [] ->
+  exists f n, um_export O d = Some (f, n) /\
+    forall k, match find k (data d) with
+              | Some v =>
+                  if (commits (unpack O v) <? 0)%Z then find k (data (fst (um_import O ver uid dict_name f d0))) = None
+                  else exists s, find k (data (fst (um_import O ver uid dict_name f d0))) = Some s
+                         /\ commits (unpack O s) = commits (unpack O v) /\ tick (unpack O s) = 0%N
+              | None => find k (data (fst (um_import O ver uid dict_name f d0))) = None
+              end.
+Proof. intros O HO ver. exact (export_import_into_empty O HO ver). Qed.
+Print Assumptions C17_export_import_into_empty.
+
+Theorem C17_export_import_file_example :
+  (wf_db ex_ours /\ forallb wf_export_rec (data ex_ours) = true /\ is_user_db ex_ours = true) /\
+  match um_export erased_ops ex_ours with
+  | Some (f, n) =>
+      n = 2%nat /\
+      dump erased_ops (fst (um_import erased_ops ex_ver ex_u1 dict_name f ex_theirs)) =
+        [(ex_k1, 3%Z, 4%N); (ex_k2, 1%Z, 0%N); (ex_k3, (-1)%Z, 2%N)] /\
+      snd (um_import erased_ops ex_ver ex_u1 dict_name f ex_theirs) = Some 2%nat
+  | None => False
+  end.
+Proof. split; [exact ex_ours_wf | exact ex_export_import_result]. Qed.
+Print Assumptions C17_export_import_file_example.
+
 (** ** histories *)
 
 (** Over every sequence of backup / restore / restore-from-file / synchronize / export /
